@@ -12,6 +12,8 @@ CONSTANTS
     ReaderDone = TRUE
     AlertCloseOnErr = TRUE
     UdfStopAborts = FALSE
+    NWaiters = 2
+    WaitHoldsMu = TRUE
     HookNeedsTmLock = FALSE
 INVARIANTS
     TrNoLoss
